@@ -267,6 +267,18 @@ def step (fx : Fix) (w : World) : Op → Option World
       let w1 := endIndepCore w
       some { w1 with ranks := w1.ranks.map fun r => { r with numrecs := w1.hdr, dirty := false, pending := [] } }
 
+/-- I/O configuration under which a file is used.  With intra-node aggregation (hint nc_num_aggrs_per_node) a blocking
+    collective put ends in ncmpio_intra_node_aggregation() inside put_varm (same numrecs tail), and wait_all ends in
+    ncmpio_intra_node_aggregation_nreqs(), whose tail `if (newnumrecs > ncp->numrecs) { ncmpio_write_numrecs(); if
+    (ncp->numrecs < newnumrecs) ncp->numrecs = newnumrecs; }` is statement for statement the tail of wait_getput:
+    the transcription is the same `step`, the configuration is not an input of it. -/
+structure IoConfig where
+  aggrsPerNode : Nat := 0      -- hint nc_num_aggrs_per_node
+  hcoll : Bool := false        -- hint romio_no_indep_rw (header written collectively)
+  format : Nat := 1            -- CDF-1 / 2 / 5 (width of the numrecs field)
+  deriving DecidableEq, Repr
+def stepUnder (_c : IoConfig) (fx : Fix) (w : World) (op : Op) : Option World := step fx w op
+
 def run (fx : Fix) : World → List Op → Option World
   | w, [] => some w
   | w, op :: rest =>
